@@ -4,6 +4,7 @@ import (
 	"bufio"
 	"fmt"
 	"io"
+	"os"
 	"os/exec"
 	"strconv"
 	"strings"
@@ -11,6 +12,10 @@ import (
 )
 
 var QueryTimeoutMs = 10000
+
+// solverFaultAt: when set (VERIF_SOLVER_FAULT=n), the n-th answer of every solver session is replaced
+// by an error, to exercise the restart-and-ask-again path.
+var solverFaultAt, _ = strconv.Atoi(os.Getenv("VERIF_SOLVER_FAULT"))
 
 type Solver struct {
 	cmd                   *exec.Cmd
@@ -29,6 +34,12 @@ type Solver struct {
 	fallbackArgs []string
 	fallback     *Solver
 	FallbackHits int
+	// restart: after a solver error the session is not trusted (a lost or extra response line would
+	// shift every later answer by one): the process is replaced and the query asked again
+	bin      string
+	args     []string
+	prelude  []string
+	Restarts int
 }
 
 // CheckAssert is Check for assertion queries: an "unknown" of the primary solver is retried once
@@ -40,7 +51,8 @@ func (s *Solver) CheckAssert(asserts []*Term) (bool, map[string]uint64, error) {
 	}
 	if s.fallback == nil {
 		s.fallback = NewSolver(s.fallbackBin, s.fallbackArgs...)
-		s.fallback.send(fmt.Sprintf("(set-option :timeout %d)", 4*QueryTimeoutMs)) // the partner gets more time
+		s.fallback.prelude = append(s.fallback.prelude, fmt.Sprintf("(set-option :timeout %d)", 4*QueryTimeoutMs)) // the partner gets more time
+		s.fallback.send(s.fallback.prelude[0])
 	}
 	sat2, m2, err2 := s.fallback.Check(asserts)
 	if err2 != nil {
@@ -58,14 +70,34 @@ func (s *Solver) CloseAll() {
 }
 
 func NewSolver(bin string, args ...string) *Solver {
-	cmd := exec.Command(bin, args...)
+	s := &Solver{bin: bin, args: args}
+	s.start()
+	return s
+}
+
+// restart replaces the solver process by a fresh one (nothing declared, empty assertion stack).
+func (s *Solver) restart() {
+	s.in.Close()
+	s.cmd.Process.Kill()
+	s.cmd.Wait()
+	s.Restarts++
+	s.start()
+	for _, l := range s.prelude {
+		s.send(l)
+	}
+}
+
+func (s *Solver) start() {
+	bin := s.bin
+	cmd := exec.Command(bin, s.args...)
 	in, _ := cmd.StdinPipe()
 	out, _ := cmd.StdoutPipe()
 	cmd.Stderr = nil
 	if err := cmd.Start(); err != nil {
 		panic(err)
 	}
-	s := &Solver{cmd: cmd, in: in, out: bufio.NewReader(out), declared: map[string]Sort{}, defined: map[int]bool{}}
+	s.cmd, s.in, s.out = cmd, in, bufio.NewReader(out)
+	s.declared, s.defined, s.vars, s.stack = map[string]Sort{}, map[int]bool{}, nil, nil
 	s.send("(set-option :produce-models true)")
 	s.send("(set-option :global-declarations true)")
 	if !strings.Contains(bin, "cvc5") {
@@ -73,7 +105,6 @@ func NewSolver(bin string, args ...string) *Solver {
 		s.send("(set-option :print-success false)")
 		s.send(fmt.Sprintf("(set-option :timeout %d)", QueryTimeoutMs))
 	}
-	return s
 }
 
 func (s *Solver) Close() { s.in.Close(); s.cmd.Wait() }
@@ -140,6 +171,16 @@ func (s *Solver) define(t *Term) {
 // Check decides satisfiability of the conjunction; returns sat, model.
 // unknown is reported via err.
 func (s *Solver) Check(asserts []*Term) (bool, map[string]uint64, error) {
+	sat, m, err := s.check1(asserts)
+	if err != nil && strings.Contains(err.Error(), "solver error") {
+		// an "(error ...)" answer: ask a fresh process once more before giving up on the query
+		s.restart()
+		sat, m, err = s.check1(asserts)
+	}
+	return sat, m, err
+}
+
+func (s *Solver) check1(asserts []*Term) (bool, map[string]uint64, error) {
 	t0 := time.Now()
 	defer func() { s.Time += time.Since(t0); s.Queries++ }()
 	for _, a := range asserts {
@@ -166,6 +207,9 @@ func (s *Solver) Check(asserts []*Term) (bool, map[string]uint64, error) {
 	res := s.readSexp()
 	s.TCheck += time.Since(tA)
 	s.TPrep += tA.Sub(t0)
+	if solverFaultAt > 0 && s.Queries == solverFaultAt && s.Restarts == 0 {
+		res = "(error \"injected by VERIF_SOLVER_FAULT\")" // self-test of the restart path
+	}
 	if strings.Contains(res, "error") {
 		s.reset()
 		return false, nil, fmt.Errorf("solver error: %s", res)
